@@ -72,6 +72,8 @@ def redirect_params(s):
     the statement does not say how the query is delimited in a malformed URL, so every position is accepted).
     raw_value runs to the next '&' (or the end); the reading that stops at '#' is produced as well."""
     out = []
+    # a QUERY parameter: what follows the first '#' is the fragment, its '&' and '=' delimit nothing
+    s = s.split("#", 1)[0]
     n = len(s)
     for m in _KEY_RE.finditer(s):
         if not is_redirect_like(m.group(1)):
